@@ -20,21 +20,20 @@ def rhe (a b : Nat) : Nat :=
   else if 2 * r < b then q
   else if q % 2 = 0 then q else q + 1
 
+/-- binade normalisation: shifts `(u, d)` (one of them 0) such that
+    2^52 ≤ (a·2^u)/(b·2^d) < 2^53 for positive a, b -/
+def norm53 (a b : Nat) : Nat × Nat :=
+  let la := bitlen a
+  let lb := bitlen b
+  let u0 := 53 + lb - la
+  let d0 := la - (53 + lb)
+  if (a <<< u0) / (b <<< d0) ≥ 2^53 then (if u0 > 0 then (u0 - 1, 0) else (0, d0 + 1)) else (u0, d0)
+
 /-- round the positive rational a/b to 53 significant bits (round-to-nearest-even) -/
 def rn53 (a b : Nat) : Dy :=
   if a = 0 then ⟨0, 1⟩ else
-  let la := bitlen a
-  let lb := bitlen b
-  let try_ (up down : Nat) : Nat := (a <<< up) / (b <<< down)
-  let diff : Int := (la : Int) - (lb : Int)
-  let s0 : Int := 53 - diff
-  let mk (s : Int) : Nat × Nat := if s ≥ 0 then (s.toNat, 0) else (0, (-s).toNat)
-  let (u0, d0) := mk s0
-  let t0 := try_ u0 d0
-  let s : Int := if t0 ≥ 2^53 then s0 - 1 else if t0 < 2^52 then s0 + 1 else s0
-  let (u, d) := mk s
-  let t := rhe (a <<< u) (b <<< d)
-  ⟨t <<< d, 1 <<< u⟩
+  let ud := norm53 a b
+  ⟨rhe (a <<< ud.1) (b <<< ud.2) <<< ud.2, 1 <<< ud.1⟩
 
 /-- `float64(n)` -/
 def toF64 (n : Nat) : Dy := rn53 n 1
